@@ -54,7 +54,12 @@ class ApiBox:
         k = (N, mtype, cpu, expand)
         if k not in self.ctx:
             c = Ctx(self.lib, cpu=cpu, expand=bool(expand), trusted=TRUSTED, values=(expand == 'values'))
-            c.mod = c.module(N, mtype)
+            # the access events of the module construction are never inspected (they are many in ordered mode for large N)
+            c.m.record = False
+            try:
+                c.mod = c.module(N, mtype)
+            finally:
+                c.m.record = True
             c.N = N
             c.sizecache = {}
             self.ctx[k] = c
